@@ -126,9 +126,20 @@ func newAckHandlerWithTimeout(f any, timeout time.Duration, timeoutFunc func()) 
 		for i := 1; i < len(args); i++ {
 			args[i] = reflect.New(h.inputArgs[i]).Elem()
 		}
-		h.rv.Call(args)
+		h.invoke(args)
 	}()
 	return h, nil
+}
+
+// Calls the user's function with one value per parameter. For a variadic function
+// the last value is the slice of the variadic parameter, which Call would take for a
+// single (wrongly typed) element: CallSlice has to be used.
+func (f *ackHandler) invoke(args []reflect.Value) {
+	if f.rv.Type().IsVariadic() {
+		f.rv.CallSlice(args)
+		return
+	}
+	f.rv.Call(args)
 }
 
 func (f *ackHandler) call(args ...reflect.Value) (err error) {
@@ -157,7 +168,7 @@ func (f *ackHandler) call(args ...reflect.Value) (err error) {
 		)
 		args = append([]reflect.Value{reflect.ValueOf(pointerToNilError).Elem()}, args...)
 	}
-	f.rv.Call(args)
+	f.invoke(args)
 	return
 }
 
